@@ -40,7 +40,7 @@ def budget(tier):
 
 def random_ctrl(rng, degree, num, family):
     n = degree + 1
-    size = rng.choice([1.0, 10.0, 100.0])
+    size = rng.choice([1.0, 10.0, 100.0, 1000.0])
 
     def val(v):
         if num == "int":
@@ -257,7 +257,8 @@ def judge_degree(case, rng, degree):
             c = (m[0] + lam * (p[0] - m[0]), m[1] + lam * (p[1] - m[1]))
         if rng.random() < 0.3 and len(ctrl) > 2:
             # grazing: a few 1e-6 (absolute) off the curve, on either side, anywhere along it
-            t = Fr(rng.randint(1, 63), 64)
+            den = rng.choice([61, 97, 1000, 2048 * 3])
+            t = Fr(rng.randint(1, den - 1), den)
             p = O.evaluate(ctrl, t)
             d = O.evaluate(O.derivative_ctrl(ctrl, 1), t)
             norm = math.hypot(float(d[0]), float(d[1]))
